@@ -279,10 +279,10 @@ def _ip_job(job):
         if isinstance(gd, int) and gd * 1000 != dmm:
             seams.append([min(gd * 1000, dmm), max(gd * 1000, dmm)])
     for dm, code in dists:
-        gd = call(get_distance, code)
-        if isinstance(gd, Exception) or gd is None:
-            continue
-        queries.append([tabd[code] if code in tabd else int(gd) * 1000, L(call(athlib.wma_age_factor, g, age, code, year=yr)), L(call(athlib.wma_world_best, g, code, year=yr))])
+        # the distance of a query is the one its spelling states (dm metres), never what get_distance made of it:
+        # a misread spelling then shows as a factor / best outside its neighbours, and a spelling that cannot be
+        # measured as a raised query
+        queries.append([tabd[code] if code in tabd else dm * 1000, L(call(athlib.wma_age_factor, g, age, code, year=yr)), L(call(athlib.wma_world_best, g, code, year=yr))])
         codes.append(code)
         n += 2
     order = sorted(range(len(queries)), key=lambda i: queries[i][0])
@@ -317,11 +317,12 @@ def run15(tier):
                 for code in codes_for(dm):
                     dists.append((dm, code))
             # miles spellings
+            # (athlib counts a mile as 1609 m: the stated distance of q miles is floor(1609 q) metres)
             for k in range(1, 250):
-                dists.append((0, '%dM' % k))
+                dists.append((1609 * k, '%dM' % k))
                 if k < 40:
-                    dists.append((0, '%d.5M' % k))
-                    dists.append((0, '%d.25M' % k))
+                    dists.append(((1609 * (100 * k + 50)) // 100, '%d.5M' % k))
+                    dists.append(((1609 * (100 * k + 25)) // 100, '%d.25M' % k))
             ages = [35, 50, 72.5, 90] if quick else [20, 35, 42.5, 50, 65, 80.5, 95, 105]
             for age in ages:
                 for i in range(0, len(dists), 6000):
